@@ -53,6 +53,9 @@ func (cb *cbox) afterSvcHandler(name string, svc *v1.Service, pre *boxPre, res c
 		cb.c.Logf("   SetBalancer(%s status=%v) -> %v; allocator now %v", name, vfSvcRequirement(svc).StatusIPs, res, post.IPs)
 	}
 	cb.stepMonitors(snap)
+	if has && (!pre.had || !vfSameSet(pre.snap.Allocated[name].IPs, post.IPs)) {
+		cb.memLog = append(cb.memLog, boxWrite{Key: name, IPs: post.IPs, Versions: len(cb.delivered)})
+	}
 	if cb.mon.c02 && svc != nil && cb.cur != nil && has {
 		cb.allocationEvent(name, svc, pre, snap)
 	}
@@ -200,6 +203,7 @@ type boxQuiet struct {
 	Specs    map[string]string   // key -> hash of everything the user controls
 	IPs      map[string][]string // key -> status addresses
 	Reqs     map[string]*vfSvcReq
+	Touches  map[string]int
 	Writes   int
 	Versions int
 	Cur      *boxDelivered
@@ -216,12 +220,13 @@ func boxSpecHash(svc *v1.Service) string {
 }
 
 func (cb *cbox) quietPoint() *boxQuiet {
-	q := &boxQuiet{Specs: map[string]string{}, IPs: map[string][]string{}, Reqs: map[string]*vfSvcReq{}, Writes: len(cb.writes), Versions: len(cb.delivered), Cur: cb.cur}
+	q := &boxQuiet{Specs: map[string]string{}, IPs: map[string][]string{}, Reqs: map[string]*vfSvcReq{}, Touches: map[string]int{}, Writes: len(cb.writes), Versions: len(cb.delivered), Cur: cb.cur}
 	for k, svc := range cb.k.Store.Services {
 		q.Specs[k] = boxSpecHash(svc)
 		r := vfSvcRequirement(svc)
 		q.Reqs[k] = &r
 		q.IPs[k] = r.StatusIPs
+		q.Touches[k] = cb.touches[k]
 	}
 	return q
 }
